@@ -217,9 +217,23 @@ fn sized_rows<L: Letter>(rep: &mut Report) {
             let self_eq = sx == sx;
             let ax = Arc::new(sx);
             let ax2 = ax.clone();
-            let (e, n, _, _) = ops(&ax, &ax2);
+            let (e, n, c, rel) = ops(&ax, &ax2);
             if e == n {
                 rep.bad("Arc !=: not the negation of == (same allocation)", format!("{:?}", sx));
+            }
+            // only == / != may take the same-allocation shortcut: ordering answers as the value does
+            let (_, _, vc, vrel) = ops(&sx, &sx);
+            if c != vc || rel != vrel {
+                rep.bad("Arc partial_cmp/<..: differs from the value's for two handles to one allocation", format!("{:?}: Arc gives ({},{:?}), the value gives ({},{:?})", sx, c, rel, vc, vrel));
+            }
+            {
+                let t: ThinArc<L, L> = ThinArc::from_header_and_slice(L::of(a), &[L::of(b)]);
+                let t2 = t.clone();
+                let (_, _, tc, trel) = ops(&t, &t2);
+                let (_, _, wc, wrel) = ops(&*t, &*t2);
+                if tc != wc || trel != wrel {
+                    rep.bad("ThinArc partial_cmp/<..: differs from the value's for two handles to one allocation", format!("{:?}: ThinArc gives ({},{:?}), the value gives ({},{:?})", sx, tc, trel, wc, wrel));
+                }
             }
             if self_eq && !e {
                 rep.bad("Arc ==: two handles to one allocation of a self-equal value compare unequal", format!("{:?}", sx));
